@@ -211,6 +211,17 @@ func checkC20(w *World, r *Report) {
 		why := ""
 		// the timeout variable: parameter of the constructor
 		for _, p := range wr.Paths {
+			// exec.Cmd.Process is set by a successful Start, and the watcher is spawned only behind one
+			// (escalation.watcher-spawned): a `cmd.Process == nil` guard is not taken
+			nilProcess := false
+			for _, l := range p.Lits {
+				if l.Atom.Op == "==" && strings.HasSuffix(l.Atom.L, ".Process") && l.Atom.R == "nil" && l.Val {
+					nilProcess = true
+				}
+			}
+			if nilProcess {
+				continue
+			}
 			var nonPositive *bool
 			for _, l := range p.Lits {
 				if l.Atom.Op == "<=" && l.Atom.L == timeoutAP && l.Atom.R == "0" {
